@@ -277,6 +277,14 @@ def _apply_real(m, op):
         m.set_arg_bounds(check_args=op["check_args"], **{op["name"]: list(v)})
     elif k == "hankel_kw":
         m.hankel_kw = v
+    elif isinstance(v, list) and k in ("len_scale", "anis", "angles") and (len(v) + len(k)) % 2 == 0:
+        # the same values as a float64 array that the caller re-uses afterwards: the model keeps its own values
+        arr = np.array(v, dtype=np.double)
+        try:
+            setattr(m, k, arr)
+        finally:
+            arr *= -3.0
+            arr -= 1.0
     else:
         setattr(m, k, v)
 
